@@ -492,11 +492,16 @@ func (c09) Check(ctx *core.Ctx, c *core.Case) {
 				return false
 			}
 			if ch.Block().Kind() != dBlocks[i].Kind() {
-				ctx.Record("kind", "%s: %s vs %s in %s", what, ch.Block().Kind(), dBlocks[i].Kind(), core.Quote(T))
+				// "exactly the blocks of D": a block of another kind is another block, even if it
+				// renders alike (judged since round 7; never observed on the unchanged tree)
+				ctx.Violation("child_kind", "%s: contained block %d is a %s, in D it is a %s; T(D)=%s", what, i, ch.Block().Kind(), dBlocks[i].Kind(), core.Quote(T))
+				return false
 			}
 		}
 		if core.FingerprintRefs(tRefs) != core.FingerprintRefs(dRefs) {
-			ctx.Record("refmap", "%s: %s", what, core.Quote(T))
+			// definitions are blocks of D that render to nothing: their content shows in the map
+			ctx.Violation("refmap_differs", "%s: the definitions of T(D) give another reference map than those of D: %s vs %s; T(D)=%s", what, core.FingerprintRefs(tRefs), core.FingerprintRefs(dRefs), core.Quote(T))
+			return false
 		}
 		ctx.Count("contained_blocks_compared", int64(n))
 		return true
